@@ -68,6 +68,23 @@ func ProfileFor(prop, tier string, seed uint64) *Profile {
 	case "C02":
 		pf.Boundary = 6
 		pf.Stmts = [2]int{10, 45}
+		if v == 6 { // many tables: catalog trees with internal roots
+			pf.Tables = [2]int{7, 12}
+			pf.WCreate = 14
+			pf.Stmts = [2]int{25, 70}
+		}
+		if v == 5 { // deep: crashes and recoveries of a height-3 tree
+			pf.Stmts = [2]int{85, 130}
+			pf.Tables = [2]int{1, 1}
+			pf.WInsert, pf.WDelete, pf.WUpdate, pf.WCreate, pf.WSelect, pf.WFail, pf.WRestart = 100, 2, 1, 0, 1, 0, 2
+			pf.MaxRows = 16
+			pf.WideInserts = true
+			pf.CheckEvery = 30
+			pf.BigInsertOnly = true
+			pf.Boundary = 3
+			pf.ContStmts = [2]int{3, 8}
+			pf.StallP = 0.01
+		}
 		if thorough {
 			pf.Boundary = 24
 			pf.Stmts = [2]int{20, 120}
@@ -85,6 +102,12 @@ func ProfileFor(prop, tier string, seed uint64) *Profile {
 		pf.MaxRows = 6
 		pf.NestP = 0.1
 		pf.ContStmts = [2]int{3, 10}
+		if v == 6 { // many tables: catalog trees with internal roots
+			pf.Tables = [2]int{7, 12}
+			pf.WCreate = 14
+			pf.Stmts = [2]int{25, 60}
+			pf.ContStmts = [2]int{6, 16}
+		}
 		if thorough {
 			pf.WalStmts = 6
 			pf.Stmts = [2]int{10, 70}
@@ -96,6 +119,11 @@ func ProfileFor(prop, tier string, seed uint64) *Profile {
 		pf.TickModes = []string{"each", "random", "burst", "late", "sparse"}
 		pf.FinalClose = 0.5
 		pf.WCreate = 6
+		if v == 6 { // many tables
+			pf.Tables = [2]int{7, 12}
+			pf.WCreate = 14
+			pf.Stmts = [2]int{25, 60}
+		}
 		if thorough {
 			pf.FlushImgs = 30
 			pf.Stmts = [2]int{10, 90}
